@@ -556,7 +556,7 @@ struct MExit {
 pub fn run_session(s: &Session, keep_log: bool) -> History {
     hashseed::set_run_hash_seed(s.hash_seed);
     if !s.root.is_empty() {
-        let _ = std::fs::remove_dir_all(&s.root);
+        let _ = std::fs::remove_dir_all(scratch_top(&s.root));
         std::fs::create_dir_all(&s.root).expect("scratch root");
         for (p, t) in &s.tree {
             apply_disk(&s.root, &DiskOp::Write { path: p.clone(), text: t.clone() });
@@ -659,12 +659,22 @@ pub fn run_session(s: &Session, keep_log: bool) -> History {
                 let reply = match method {
                     "workspace/configuration" => {
                         let n = msg["params"]["items"].as_array().map_or(1, |a| a.len());
-                        let item = match (s.seed ^ s.run ^ replies_sent) % 3 {
-                            0 => Value::Null,
-                            1 => json!({}),
-                            _ => json!({"diagnostics": {"ignored": []}}),
-                        };
-                        json!({"jsonrpc":"2.0","id": id, "result": vec![item; n]})
+                        // one answer in seven is an error (the editor has no such section, the
+                        // user closed the window ...): legal, and the server must carry on
+                        match crate::rng::mix(crate::rng::mix(s.seed, s.run), replies_sent + pending_replies.len() as u64) % 7 {
+                            0 => {
+                                *h.faults.entry("client_answers_with_error".into()).or_insert(0) += 1;
+                                json!({"jsonrpc":"2.0","id": id, "error": {"code": -32603, "message": "no configuration available"}})
+                            }
+                            k => {
+                                let item = match k % 3 {
+                                    0 => Value::Null,
+                                    1 => json!({}),
+                                    _ => json!({"diagnostics": {"ignored": []}}),
+                                };
+                                json!({"jsonrpc":"2.0","id": id, "result": vec![item; n]})
+                            }
+                        }
                     }
                     "window/workDoneProgress/create" | "client/registerCapability" | "client/unregisterCapability" => {
                         json!({"jsonrpc":"2.0","id": id, "result": null})
@@ -941,7 +951,7 @@ pub fn run_session(s: &Session, keep_log: bool) -> History {
     }
     // messages written during teardown are not part of the history
     if !s.root.is_empty() && std::env::var("VERIF_KEEP_SCRATCH").is_err() {
-        let _ = std::fs::remove_dir_all(&s.root);
+        let _ = std::fs::remove_dir_all(scratch_top(&s.root));
     }
     h
 }
@@ -949,6 +959,16 @@ pub fn run_session(s: &Session, keep_log: bool) -> History {
 pub fn scratch_root(prop: &str, seed: u64, run: u64) -> String {
     let base = std::env::var("VERIF_SCRATCH").unwrap_or_else(|_| "/dev/shm/glas-sim".into());
     format!("{base}/{prop}-{seed}-{run}")
+}
+
+/// The per-run directory a session root lives in (the root itself, or an ancestor of it when the
+/// project is placed deeper, e.g. `<run dir>/src`).
+fn scratch_top(root: &str) -> String {
+    let base = std::env::var("VERIF_SCRATCH").unwrap_or_else(|_| "/dev/shm/glas-sim".into());
+    match root.strip_prefix(&format!("{base}/")) {
+        Some(rest) => format!("{base}/{}", rest.split('/').next().unwrap_or(rest)),
+        None => root.to_string(),
+    }
 }
 
 pub fn uri_for(root: &str, rel: &str) -> String {
